@@ -575,9 +575,11 @@ Proof. unfold C20_verdict_check. intro H. apply eqb_prop in H. exact H. Qed.
 Lemma C20_summary_check_sound data obs :
   C20_summary_check data obs = true ->
   exists s, obs = Some s /\
-    (data <> [] -> is_median2 data (s_med4 s / 2) = true /\ s_q1_4 s <= s_med4 s <= s_q3_4 s /\
-                   s_iqr4 s = s_q3_4 s - s_q1_4 s).
+    (data <> [] -> is_median2 data (s_med4 s / 2) = true /\ s_iqr4 s = s_q3_4 s - s_q1_4 s /\
+                   ((2 <= length data)%nat -> s_q1_4 s <= s_med4 s <= s_q3_4 s)).
 Proof.
   unfold C20_summary_check. destruct obs as [s|]; [|discriminate]. intro H. exists s. split; [reflexivity|].
-  intro Hne. destruct data; [contradiction|]. rewrite !andb_true_iff in H. intuition lia.
+  intro Hne. destruct data as [|x t] eqn:Ed; [contradiction|]. rewrite <- Ed in *. rewrite !andb_true_iff in H.
+  destruct H as [[[[[H1 H2] H3] H4] H5] H6]. split; [exact H1|]. split; [lia|].
+  intro Hl. apply orb_true_iff in H3. destruct H3 as [H3|H3]; [apply Nat.ltb_lt in H3; lia | lia].
 Qed.
